@@ -349,11 +349,22 @@ VOP(mz_zoneless)
 	} catch (const std::exception&) {
 		rejected = true;
 	}
+	// ... and so must one created at run time (the path of PUT /v1/objects/endpoints and of config::UpdateObject)
+	String rn = "mz_zlr_" + std::to_string(CaseId()) + "_" + std::to_string(++l_Ctr);
+	bool created = false;
+	try {
+		Array::Ptr errors = new Array();
+		created = ConfigObjectUtility::CreateObject(Endpoint::TypeInstance, rn, "object Endpoint \"" + rn + "\" { }\n", errors, nullptr);
+	} catch (const std::exception&) {
+		created = false;
+	}
+	if (created || Endpoint::GetByName(rn)) rejected = false;
 	Out(std::string("zoneless rejected=") + (rejected ? "1" : "0"));
 }
 
 // mz_msg t=<tree> recv=<zone> snd=<zone><a|b> auth=0|1 ident=ep|unk claim=-|<zone>|x m=<method> obj=<zone>|nz|k<zone>
-//        ts=none|old|new ac=0|1 ak=0|1 [xz=<zone>] [var=...]
+//        ts=none|old|new ac=0|1 ak=0|1 [xz=<zone>] [var=...] [rep=a|b  receiver endpoint]
+//        event::ExecuteCommand forwarding family: xt=-|unk|<zone><a|b> (params.endpoint) xcap=0|1 xh=0|1 (params.host exists)
 VOP(mz_msg)
 {
 	InitOnce();
@@ -365,9 +376,11 @@ VOP(mz_msg)
 	std::string method = a.str("m");
 	std::string obj = a.str("obj", "nz");
 	std::string var = a.str("var", "");
+	bool xmode = method == "event::ExecuteCommand" && !a.str("xt", "").empty();
+	String createdName;
 
 	// ---- receiver
-	Endpoint::Ptr localEp = Endpoint::GetByName(t.pfx + "e" + a.str("recv") + "a");
+	Endpoint::Ptr localEp = Endpoint::GetByName(t.pfx + "e" + a.str("recv") + a.str("rep", "a"));
 	if (!localEp) throw std::runtime_error("mz_msg: receiver endpoint missing");
 	l_Listener->m_LocalEndpoint = localEp;
 	l_Listener->SetAcceptConfig(a.num("ac") != 0, true);
@@ -431,6 +444,18 @@ VOP(mz_msg)
 		p->Set("host", String("mzvirtual" + std::to_string(n))); p->Set("command_type", "check_command"); p->Set("command", "mzprobe");
 		p->Set("macros", new Dictionary());
 		if (var == "localep") p->Set("endpoint", localEp->GetName());
+		if (xmode) {
+			// forwarding family: "endpoint" names another endpoint (or nothing / an unknown name); the checkable exists or not;
+			// every endpoint of the forest announces (or not) the ExecuteArbitraryCommand capability
+			std::string xt = a.str("xt");
+			if (xt == "unk") p->Set("endpoint", "mz-no-such-endpoint");
+			else if (xt != "-") p->Set("endpoint", String(t.pfx + "e" + xt));
+			if (a.num("xh", 0) != 0) { p->Set("host", host->GetName()); if (useSvc) p->Set("service", "s"); }
+			for (auto& kv : t.conns) {
+				Endpoint::Ptr e = Endpoint::GetByName(kv.first);
+				if (e) e->SetCapabilities(a.num("xcap", 1) != 0 ? (uint_fast64_t)ApiCapabilities::ExecuteArbitraryCommand : 0);
+			}
+		}
 	} else if (method == "event::SendNotifications") {
 		addCk(); p->Set("cr", mkCr(2)); p->Set("type", 32); p->Set("author", "mz"); p->Set("text", "x");
 	} else if (method == "event::NotificationSentUser") {
@@ -462,10 +487,19 @@ VOP(mz_msg)
 		p->Set("update_v2", new Dictionary());
 	} else if (method == "config::UpdateObject") {
 		p->Set("type", "Host"); p->Set("zone", host->GetZoneName());
+		// zp=: the zone the MESSAGE names (e = none, x = a name that is no Zone object, <zone> = that zone of the forest)
+		std::string zp = a.str("zp", "");
+		if (zp == "e") p->Remove("zone");
+		else if (zp == "x") p->Set("zone", "mz-no-such-zone");
+		else if (!zp.empty()) p->Set("zone", String(ZName(t, zp)));
 		if (var == "new") {
 			String nm = t.pfx + "rt" + std::to_string(n);
+			createdName = nm;
 			p->Set("name", nm);
-			p->Set("config", "object Host \"" + nm + "\" {\n  check_command = \"mzdummy\"\n  enable_active_checks = false\n}\n");
+			// cz=: the zone the CONFIG TEXT gives the new object (- = none)
+			std::string cz = a.str("cz", "-");
+			p->Set("config", "object Host \"" + nm + "\" {\n  check_command = \"mzdummy\"\n  enable_active_checks = false\n"
+				+ (cz == "-" ? std::string() : "  zone = \"" + ZName(t, cz) + "\"\n") + "}\n");
 			p->Set("version", now + n);
 		} else {
 			p->Set("name", host->GetName()); p->Set("config", "");
@@ -476,8 +510,10 @@ VOP(mz_msg)
 	} else if (method == "config::DeleteObject") {
 		String nm = t.pfx + "del" + std::to_string(n);
 		Array::Ptr errors = new Array();
+		// var=zoned: the runtime object to be deleted lives in the zone of obj= (the message itself carries no zone)
+		std::string dz = (var == "zoned" && !host->GetZoneName().IsEmpty()) ? "  zone = \"" + host->GetZoneName().GetData() + "\"\n" : "";
 		if (!ConfigObjectUtility::CreateObject(Host::TypeInstance, nm,
-			"object Host \"" + nm + "\" {\n  check_command = \"mzdummy\"\n  enable_active_checks = false\n}\n", errors, nullptr))
+			"object Host \"" + nm + "\" {\n  check_command = \"mzdummy\"\n  enable_active_checks = false\n" + dz + "}\n", errors, nullptr))
 			throw std::runtime_error("mz_msg: cannot create runtime object for DeleteObject");
 		p->Set("type", "Host"); p->Set("name", nm);
 	} else if (method == "log::SetLogPosition") {
@@ -573,12 +609,43 @@ VOP(mz_msg)
 		size_t d = kv.second - before.out[kv.first];
 		if (sndEp && kv.first == sndEp->GetName().GetData()) replies += d; else relayed += d;
 	}
+	// forwarding family: which zones got an event::ExecuteCommand / event::ExecutedCommand (any endpoint, the sender's included)
+	std::set<long> xc, xd;
+	if (xmode) {
+		for (auto& c : t.conns) {
+			size_t from = before.out[c.first];
+			const auto& q = c.second->m_OutgoingMessagesQueue;
+			for (size_t i = from; i < q.size(); i++) {
+				Dictionary::Ptr qm = JsonDecode(q[i]);
+				String qmeth = qm->Get("method");
+				// endpoint name = <pfx>e<zone><a|b>
+				std::string zn = c.first.substr(t.pfx.size() + 1);
+				long z = atol(zn.substr(0, zn.size() - 1).c_str());
+				if (qmeth == "event::ExecuteCommand") xc.insert(z);
+				else if (qmeth == "event::ExecutedCommand") xd.insert(z);
+			}
+		}
+	}
 	if (relayed) what.push_back("relay:" + std::to_string(relayed));
 	if (after.exec != before.exec) what.push_back("exec:" + std::to_string(after.exec - before.exec));
 	if (after.signals != before.signals) what.push_back("signal:" + std::to_string(after.signals - before.signals));
 	bool rlp = after.rlp != before.rlp;
 	std::ostringstream o;
-	o << "msg rlp=" << (rlp ? 1 : 0) << " app=" << (what.empty() ? 0 : 1);
+	o << "msg rlp=" << (rlp ? 1 : 0) << " app=" << ((what.empty() && xc.empty() && xd.empty()) ? 0 : 1);
+	if (xmode) {
+		auto lst = [](const std::set<long>& zs) { std::string r; for (long z : zs) { if (!r.empty()) r += ","; r += std::to_string(z); } return r.empty() ? std::string("-") : r; };
+		o << " xc=" << lst(xc) << " xd=" << lst(xd);
+	}
+	if (!a.str("cz", "").empty()) {
+		// zone attribute of the object config::UpdateObject was to create (- = no such object now / no zone)
+		std::string z = "-";
+		Host::Ptr created = createdName.IsEmpty() ? Host::Ptr() : Host::GetByName(createdName);
+		if (created && !created->GetZoneName().IsEmpty()) {
+			std::string zn = created->GetZoneName().GetData();
+			z = zn.compare(0, t.pfx.size() + 1, t.pfx + "z") == 0 ? zn.substr(t.pfx.size() + 1) : "?";
+		}
+		o << " cz=" << z;
+	}
 	if (hang) o << " HANG";
 	o << " # replies=" << replies;
 	for (size_t i = 0; i < what.size() && i < 4; i++) o << " " << what[i];
